@@ -23,7 +23,7 @@ ASSUMPTIONS = [
     "action records are compared by identity / class, not by action_type name (several ActionTypeEnum members are aliases)",
 ]
 MIN_NONTRIVIAL = {"quick": 500, "thorough": 10000}
-REQUIRED_LABELS = ["interval.1", "interval.2", "interval.5", "interval.15", "interval.60", "mix.hourly+minutely", "phase.before.record", "phase.trigger.record", "phase.on.record", "phase.after.record", "update.record", "second_refresh", "rejected.op"]
+REQUIRED_LABELS = ["interval.1", "interval.2", "interval.5", "interval.15", "interval.60", "mix.hourly+minutely", "phase.before.record", "phase.trigger.record", "phase.on.record", "phase.after.record", "update.record", "second_refresh", "rejected.op", "phase.notify.record"]
 
 RECORDING = {("uni", "add"), ("uni", "add_price"), ("uni", "remove"), ("uni", "collect"), ("uni", "swap"), ("squni", "add"), ("squni", "add_price"), ("squni", "remove"), ("squni", "collect"), ("squni", "swap"),
              ("aave", "supply"), ("aave", "withdraw"), ("aave", "borrow"), ("aave", "repay"), ("sq", "open"), ("sq", "deposit"), ("opt", "deposit"), ("opt", "withdraw"), ("opt", "buy"), ("opt", "sell"),
@@ -153,11 +153,14 @@ def body(case, ctx: Ctx):
             ctx.check(pd.Timestamp(e[2]) == ts, "record.timestamp", lambda: f"{where}: {type(e[1]).__name__} stamped {e[2]}", case)
             ph = max((p for p in pos if pos[p] < i), key=lambda p: pos[p])
             inside_update = any(j < i for j, _ in upd) and i < pos["after"]
-            labels.add("update.record" if inside_update else f"phase.{ph}.record")
+            inside_notify = any(j < i for j, e2 in enumerate(seg) if e2[0] == "notify")
+            labels.add("update.record" if inside_update else "phase.notify.record" if inside_notify else f"phase.{ph}.record")
         nots = [(i, e[1]) for i, e in enumerate(seg) if e[0] == "notify"]
         ctx.check([id(x) for _, x in nots] == [id(e[1]) for _, e in recs], "notify.sequence", lambda: f"{where}: notified {[type(x).__name__ for _, x in nots]}, recorded {[type(e[1]).__name__ for _, e in recs]}", case)
-        last_op = max([i for i, e in enumerate(seg) if e[0] in ("op", "record", "phase")], default=0)
-        ctx.check(all(i > last_op for i, _ in nots), "notify.position", lambda: f"{where}: notify before the end of the bar", case)
+        # notifications come after after_bar (operations issued from inside notify() record - and are notified - in the same bar)
+        ctx.check(all(i > pos["after"] for i, _ in nots), "notify.position", lambda: f"{where}: notify before the end of the bar", case)
+        late = [type(e[1]).__name__ for i, e in recs if nots and i > nots[-1][0]] if nots else []
+        ctx.check(not late, "notify.undelivered", lambda: f"{where}: records made during notification were not delivered in this bar: {late}", case)
         # ops: accepted => record(s) between the previous event and the op marker
         prev = 0
         for i, e in enumerate(seg):
